@@ -232,6 +232,15 @@ mod verif_c11_fd {
         assert!(f.picos == (secs as u128 * 1_000_000_000u128 + nanos as u128) * 1_000u128);
         kani::cover!(secs == u64::MAX && nanos == 999_999_999);
     }
+    /// what the precision unit assumes of FineDuration: MAX, is_zero, and the derived order is the order of `picos`
+    #[kani::proof]
+    fn ord_and_consts() {
+        let a = FineDuration { picos: kani::any() }; let b = FineDuration { picos: kani::any() };
+        assert!(a.cmp(&b) == a.picos.cmp(&b.picos));
+        assert!(a.is_zero() == (a.picos == 0));
+        assert!(FineDuration::MAX.picos == u128::MAX);
+        kani::cover!(a.picos > b.picos);
+    }
 }
 """
 
@@ -239,6 +248,7 @@ mod verif_c11_fd {
 def build(S: Sources) -> Unit:
     errs = []
     vfiles = guarded(lambda: verus_files(S), errs, [])
+    vfiles = vfiles + guarded(lambda: precision_file(S), errs, [])
     kani = KaniSpec(
         injections={TSC: KANI_TSC, TS: KANI_TS, FD: KANI_FD},
         harnesses=[
@@ -250,6 +260,7 @@ def build(S: Sources) -> Unit:
             KaniHarness("verif_c11::fine_duration_default", "complete", covers="trusted spec of derived FineDuration::default"),
             KaniHarness("verif_c11_ts::timestamp_duration_since_tsc_arm", "complete", covers="Timestamp::duration_since (Tsc arm dispatch)"),
             KaniHarness("verif_c11_fd::from_duration_exact", "complete", covers="<FineDuration as From<Duration>>::from"),
+            KaniHarness("verif_c11_fd::ord_and_consts", "complete", covers="FineDuration::{MAX, is_zero}, derived Ord (assumed in the precision unit)"),
         ])
     return Unit(
         property_id="C11",
@@ -257,10 +268,130 @@ def build(S: Sources) -> Unit:
         kani=kani,
         build_errors=errs,
         undecided_clauses=[
-            "precision reported for a uniform-step clock equals the step (Timer::measure_precision): loop over hardware clock reads; not under contract",
+            "precision: proved is 'the least non-zero sample observed during the call' (so a positive multiple of a uniform step); that a sample spanning exactly one step is observed, and that the call returns, depend on the clock and are not decided",
             "Os arm of Timestamp::duration_since (std::time::Instant arithmetic is external)",
         ],
     )
+
+
+TIMER = "src/time/timer.rs"
+
+PREC_SPEC = r"""
+use core::cmp::Ordering;
+// ===== stand-ins =====
+#[verifier::external_body] #[derive(Clone, Copy)] pub struct Timer { _p: core::marker::PhantomData<()> }
+#[verifier::external_body] #[derive(Clone, Copy)] pub struct TimerKind { _p: core::marker::PhantomData<()> }
+impl Timer { #[verifier::external_body] pub fn kind(self) -> (r: TimerKind) { unimplemented!() } }
+impl FineDuration {
+    // FineDuration::MAX / is_zero / derived Ord on the one field `picos` (checked on the compiled code by Kani verif_c11_fd::ord_and_consts)
+    #[verifier::external_body] pub fn max_value() -> (r: FineDuration) ensures r.picos == u128::MAX { unimplemented!() }
+    #[verifier::external_body] pub fn is_zero(&self) -> (r: bool) ensures r == (self.picos == 0) { unimplemented!() }
+    #[verifier::external_body] pub fn cmp(&self, other: &FineDuration) -> (r: Ordering)
+        ensures r == (if self.picos < other.picos { Ordering::Less } else if self.picos == other.picos { Ordering::Equal } else { Ordering::Greater }),
+    { unimplemented!() }
+}
+// one clock sample: two reads in immediate succession, or `delay_len` spins apart (pinned fragment: the untagged
+// timestamps, the delay loop, the unsafe into_timestamp and the duration_since call); its value is whatever the clock says
+#[verifier::external_body]
+pub fn take_sample(timer: Timer, timer_kind: TimerKind, delay_len: usize) -> (r: FineDuration) { unimplemented!() }
+
+// the least non-zero sample among the first n observed
+pub open spec fn least_nonzero(obs: Seq<u128>, n: int) -> u128
+    decreases n,
+{
+    if n <= 0 { u128::MAX } else {
+        let m = least_nonzero(obs, n - 1);
+        if obs[n - 1] != 0 && obs[n - 1] < m { obs[n - 1] } else { m }
+    }
+}
+pub proof fn lemma_least(obs: Seq<u128>, n: int)
+    requires 0 <= n <= obs.len(),
+    ensures
+        forall|i: int| 0 <= i < n && obs[i] != 0 ==> least_nonzero(obs, n) <= #[trigger] obs[i],
+        least_nonzero(obs, n) == u128::MAX || exists|i: int| 0 <= i < n && obs[i] == least_nonzero(obs, n) && obs[i] != 0,
+    decreases n,
+{
+    if n > 0 {
+        lemma_least(obs, n - 1);
+        let m = least_nonzero(obs, n - 1);
+        if obs[n - 1] != 0 && obs[n - 1] < m { assert(obs[n - 1] == least_nonzero(obs, n)); }
+        else if m != u128::MAX { let i = choose|i: int| 0 <= i < n - 1 && obs[i] == m && obs[i] != 0; assert(obs[i] == least_nonzero(obs, n)); }
+    }
+}
+pub proof fn lemma_prefix(obs: Seq<u128>, x: u128, n: int)
+    requires 0 <= n <= obs.len(),
+    ensures least_nonzero(obs.push(x), n) == least_nonzero(obs, n),
+    decreases n,
+{
+    if n > 0 { lemma_prefix(obs, x, n - 1); assert(obs.push(x)[n - 1] == obs[n - 1]); }
+}
+pub proof fn lemma_push(obs: Seq<u128>, x: u128)
+    ensures least_nonzero(obs.push(x), obs.len() as int + 1) == (if x != 0 && x < least_nonzero(obs, obs.len() as int) { x } else { least_nonzero(obs, obs.len() as int) }),
+{
+    lemma_prefix(obs, x, obs.len() as int);
+    assert(obs.push(x)[obs.len() as int] == x);
+}
+"""
+
+PIN_SAMPLE = """let sample_start: UntaggedTimestamp;
+                let sample_end: UntaggedTimestamp;
+
+                if delay_len == 0 {
+                    sample_start = UntaggedTimestamp::start(timer_kind);
+                    sample_end = UntaggedTimestamp::end(timer_kind);
+                } else {
+                    sample_start = UntaggedTimestamp::start(timer_kind);
+                    for n in 0..delay_len {
+                        crate::black_box(n);
+                    }
+                    sample_end = UntaggedTimestamp::end(timer_kind);
+                }
+
+                let [sample_start, sample_end] = unsafe {
+                    [
+                        sample_start.into_timestamp(timer_kind),
+                        sample_end.into_timestamp(timer_kind),
+                    ]
+                };
+
+                let sample = sample_end.duration_since(sample_start, self);"""
+
+
+def precision_file(S: Sources):
+    """Timer::measure_precision: whatever the clock does, the value returned is the LEAST non-zero sample observed during the
+    call and was itself observed (zero samples are discarded) - so for a clock advancing in uniform steps it is a positive
+    multiple of the step, and the step itself as soon as one sample spans a single step. Partial correctness (the function
+    only returns once a minimum has been seen 100 times or after 100 delay increases; termination is not proved)."""
+    from units.loop_common import pin
+    import re
+    tm = S(TIMER); fd = S(FD)
+    secs = [code_item(fd, fd.find_item("struct", "FineDuration"), keep_attrs=("derive",),
+                      subst=[(r"#\[derive\([^\]]*\)\]", "#[derive(Clone, Copy)]", 1)]),
+            ghost("precision spec and stand-ins", PREC_SPEC, kind="trusted")]
+    f = tm.find_fn("measure_precision", impl=r"impl Timer\b")
+    INV = "0 <= seen_count < 100, min_sample.picos == least_nonzero(obs, obs.len() as int),"
+    subst = [
+        (pin(re.sub(r"//[^\n]*", "", PIN_SAMPLE)), "let sample = take_sample(self, timer_kind, delay_len); proof { lemma_push(obs, sample.picos); obs = obs.push(sample.picos); }", 1),
+        (pin("FineDuration::MAX"), "FineDuration::max_value()", 1),
+        # Verus has no `continue` in for-loops: `for _ in 0..100` becomes a counting while loop (header only)
+        (r"for\s+_\s+in\s+0\s*\.\.\s*100\s*\{", "let mut round_i: u32 = 0;\n            while round_i < 100\n                invariant " + INV + "\n            {\n                round_i = round_i + 1;", 1),
+    ]
+    sec = code_fn(tm, f, "Timer::measure_precision", ret="r", subst=subst,
+                  inserts=[(pin("let mut min_sample ="), "before", "let ghost mut obs: Seq<u128> = Seq::empty();", 1),
+                           (r"return\s+\w+\s*;", "before", "proof { lemma_least(obs, obs.len() as int); assert(obs[obs.len() - 1] == sample.picos); }", 2, "hint")],
+                  loops={0: "invariant " + INV},
+                  clauses="""
+            ensures
+                // the least non-zero sample the clock produced during the call, and one that was really observed
+                exists|obs: Seq<u128>| r.picos == least_nonzero(obs, obs.len() as int)
+                    && (exists|i: int| 0 <= i < obs.len() && #[trigger] obs[i] == r.picos && obs[i] != 0)
+                    && (forall|i: int| 0 <= i < obs.len() && #[trigger] obs[i] != 0 ==> r.picos <= obs[i]),
+        """)
+    sec.text = "#[verifier::exec_allows_no_decreases_clause]\n" + sec.text
+    secs += wrap_impl("impl Timer", [sec])
+    import copy
+    csecs = copy.deepcopy(secs) + [ghost("canaries", "pub fn canary_precision(t: Timer) { let p = t.measure_precision(); assert(false); }", kind="lemma")]
+    return [VerusFile("c11_precision", secs, rlimit=60), VerusFile("c11_precision_canary", csecs, expect_fail=True, rlimit=60)]
 
 
 def verus_files(S: Sources):
